@@ -71,4 +71,11 @@ the walk yields `pre ++ rel`; the pattern match is done on the path relative to 
 def collect (pre : List String) (tree : List (List String)) (recursive : Bool) (inc exc : List String) : List (List String) :=
   (tree.map fun rel => pre ++ rel).filter fun path => selectOne recursive inc exc (path.drop pre.length)
 
+/-- `addFile` of `CollectPythonFiles`: a file (identified by its absolute path) is appended unless it was selected already -/
+def addFile (acc : List (List String)) (x : List String) : List (List String) := if acc.contains x then acc else acc ++ [x]
+
+/-- several targets at once: each target is (absolute directory, its tree); the selections are concatenated in target order, every file once -/
+def collectMany (targets : List (List String × List (List String))) (recursive : Bool) (inc exc : List String) : List (List String) :=
+  (targets.flatMap fun t => (select t.2 recursive inc exc).map fun rel => t.1 ++ rel).foldl addFile []
+
 end PV.Files
